@@ -52,6 +52,7 @@ type World struct {
 	cfg     RunSpec
 	linkHook func(l *Link)
 	AllClosed bool
+	seenListed map[string]bool
 	corruptID   uint32
 	corruptLink *Link
 	corruptDir  int
